@@ -53,6 +53,10 @@ pub struct SynCase {
     /// largest value of the element type, and was then resized down to the rows of this case
     #[serde(default)]
     pub prior_rows: usize,
+    /// the buffer's `max_index` (number of scored positions) is this much smaller than rows x C: the last
+    /// cells are "padding" positions - they are cells of the matrix all the same
+    #[serde(default)]
+    pub short_by: usize,
 }
 
 fn expand_cells(c: &Cells, cols: usize) -> Vec<Vec<f32>> {
@@ -135,8 +139,9 @@ fn syn_strategy(tier: Tier) -> BoxedStrategy<SynCase> {
         2 => fl_strategy().prop_map(Thr::Value),
     ];
     let prior = prop_oneof![2 => Just(0usize), 1 => 1usize..=3, 1 => 1usize..=80];
-    (prop_oneof![Just(Dtype::F32), Just(Dtype::U8)], prop_oneof![3 => Just(true), 1 => Just(false)], cells, thr, prior)
-        .prop_map(|(dtype, wide, cells, thr, prior_rows)| SynCase { dtype, wide, cells, thr, prior_rows })
+    let short = prop_oneof![2 => Just(0usize), 2 => 1usize..=40, 1 => 0usize..=3000];
+    (prop_oneof![Just(Dtype::F32), Just(Dtype::U8)], prop_oneof![3 => Just(true), 1 => Just(false)], cells, thr, prior, short)
+        .prop_map(|(dtype, wide, cells, thr, prior_rows, short_by)| SynCase { dtype, wide, cells, thr, prior_rows, short_by })
         .boxed()
 }
 
@@ -157,7 +162,7 @@ where
     Reported { name, max: pli.max(s), argmax: pli.argmax(s), threshold: pli.threshold(s, t) }
 }
 
-fn build_scores<T: MatrixElement, C: PositiveLength>(cells: &[Vec<T>], prior: Option<(usize, T)>) -> StripedScores<T, C> {
+fn build_scores<T: MatrixElement, C: PositiveLength>(cells: &[Vec<T>], prior: Option<(usize, T)>, short_by: usize) -> StripedScores<T, C> {
     let mut s = StripedScores::<T, C>::empty();
     if let Some((extra, value)) = prior {
         // an earlier, taller use of the same buffer
@@ -169,7 +174,8 @@ fn build_scores<T: MatrixElement, C: PositiveLength>(cells: &[Vec<T>], prior: Op
             }
         }
     }
-    s.resize(cells.len(), cells.len() * C::USIZE);
+    let total = cells.len() * C::USIZE;
+    s.resize(cells.len(), total - short_by.min(total));
     for (i, r) in cells.iter().enumerate() {
         for j in 0..C::USIZE {
             s.matrix_mut()[i][j] = r[j];
@@ -304,7 +310,7 @@ fn judge_offsets<T: MatrixElement + PartialOrd + std::fmt::Debug>(
     judge(cells, cols, t, &rep, info)
 }
 
-fn run_syn<T, C>(cells: &[Vec<T>], t: T, wide_backends: bool, prior: Option<(usize, T)>, info: &mut CaseInfo) -> Option<Failure>
+fn run_syn<T, C>(cells: &[Vec<T>], t: T, wide_backends: bool, prior: Option<(usize, T)>, short_by: usize, info: &mut CaseInfo) -> Option<Failure>
 where
     T: MatrixElement + PartialOrd + std::fmt::Debug,
     C: PositiveLength,
@@ -313,7 +319,7 @@ where
     Pipeline<Protein, lightmotif::pli::platform::Sse2>: Maximum<T, C> + Threshold<T, C>,
 {
     let _ = wide_backends;
-    let s = build_scores::<T, C>(cells, prior);
+    let s = build_scores::<T, C>(cells, prior, short_by);
     let cols = C::USIZE;
     let reps = vec![
         report("generic", &Pipeline::<Dna, _>::generic(), &s, t),
@@ -328,7 +334,7 @@ where
     None
 }
 
-fn run_syn_wide<T>(cells: &[Vec<T>], t: T, prior: Option<(usize, T)>, info: &mut CaseInfo) -> Option<Failure>
+fn run_syn_wide<T>(cells: &[Vec<T>], t: T, prior: Option<(usize, T)>, short_by: usize, info: &mut CaseInfo) -> Option<Failure>
 where
     T: MatrixElement + PartialOrd + std::fmt::Debug,
     Pipeline<Dna, lightmotif::pli::platform::Generic>: Maximum<T, U32> + Threshold<T, U32>,
@@ -338,10 +344,10 @@ where
     Pipeline<Protein, lightmotif::pli::platform::Avx2>: Maximum<T, U32> + Threshold<T, U32>,
     Pipeline<Dna, lightmotif::pli::dispatch::Dispatch>: Maximum<T, U32> + Threshold<T, U32>,
 {
-    if let Some(f) = run_syn::<T, U32>(cells, t, true, prior, info) {
+    if let Some(f) = run_syn::<T, U32>(cells, t, true, prior, short_by, info) {
         return Some(f);
     }
-    let s = build_scores::<T, U32>(cells, prior);
+    let s = build_scores::<T, U32>(cells, prior, short_by);
     let mut reps = vec![
         report("avx2", &Pipeline::<Dna, _>::avx2().unwrap(), &s, t),
         report("avx2[protein]", &Pipeline::<Protein, _>::avx2().unwrap(), &s, t),
@@ -378,7 +384,7 @@ impl Sub for Synthetic {
         "synthetic"
     }
     fn rule(&self) -> &'static str {
-        "StripedScores<f32|u8> with 16 or 32 columns built cell by cell, half of them in a buffer that first held 1..80 more rows of the largest value and was resized down (explicit / seeded incl. all-negative, few-valued / spikes incl. +-inf, duplicated maxima) x threshold (a cell value, between two values, below min, above max, arbitrary); generic, sse2, avx2, dispatch forced to each arm, StripedScores::{max,argmax,threshold} and Scores::{max,argmax,threshold} compared with a scan of all cells; sweep = one spike at every column x rows {1,2,3,33} x both dtypes x {all-negative, zero} base; non-trivial = rows >= 2 and (maximum outside row 0 / column 0, or every cell negative, or duplicated maximum)"
+        "StripedScores<f32|u8> with 16 or 32 columns built cell by cell, half of them in a buffer that first held 1..80 more rows of the largest value and was resized down, and three in five with a max_index smaller than rows x C (explicit / seeded incl. all-negative, few-valued / spikes incl. +-inf, duplicated maxima) x threshold (a cell value, between two values, below min, above max, arbitrary); generic, sse2, avx2, dispatch forced to each arm, StripedScores::{max,argmax,threshold} and Scores::{max,argmax,threshold} compared with a scan of all cells; sweep = one spike at every column x rows {1,2,3,33} x both dtypes x {all-negative, zero} base; non-trivial = rows >= 2 and (maximum outside row 0 / column 0, or every cell negative, or duplicated maximum)"
     }
     fn cases(&self, tier: Tier) -> u64 {
         tier.pick(150_000, 5_000_000)
@@ -404,6 +410,7 @@ impl Sub for Synthetic {
                                     cells: Cells::Spikes { rows, base: Fl(base), value: Fl(value), at: vec![(row, col)] },
                                     thr: Thr::Cell(row * 32 + col),
                                     prior_rows: 0,
+                                    short_by: 0,
                                 });
                             }
                         }
@@ -421,6 +428,7 @@ impl Sub for Synthetic {
                     cells: Cells::Spikes { rows, base: Fl(3.0), value: Fl(200.0), at: vec![(row, col)] },
                     thr: Thr::Cell(row * 32 + col),
                     prior_rows: 0,
+                                    short_by: 0,
                 });
             }
         }
@@ -431,6 +439,7 @@ impl Sub for Synthetic {
                 cells: Cells::Spikes { rows: 65536, base: Fl(3.0), value: Fl(200.0), at: vec![(65535, 17)] },
                 thr: Thr::AboveMax,
                 prior_rows: 0,
+                                    short_by: 0,
             });
             out.push(SynCase {
                 dtype: Dtype::F32,
@@ -438,6 +447,7 @@ impl Sub for Synthetic {
                 cells: Cells::Spikes { rows: 65536, base: Fl(-3.0), value: Fl(-1.0), at: vec![(65535, 9)] },
                 thr: Thr::Cell(5),
                 prior_rows: 0,
+                                    short_by: 0,
             });
         }
         out
@@ -460,7 +470,7 @@ impl Sub for Synthetic {
                 info.class_if(all_neg, "all-negative");
                 info.nontrivial = rows >= 2 && (all_neg || n_max >= 2 || (first_max / cols != 0 && first_max % cols != 0));
                 let prior = if case.prior_rows > 0 { Some((case.prior_rows, f32::INFINITY)) } else { None };
-                let f = if case.wide { run_syn_wide::<f32>(&cells, thr, prior, &mut info) } else { run_syn::<f32, U16>(&cells, thr, false, prior, &mut info) };
+                let f = if case.wide { run_syn_wide::<f32>(&cells, thr, prior, case.short_by, &mut info) } else { run_syn::<f32, U16>(&cells, thr, false, prior, case.short_by, &mut info) };
                 f.or_else(|| {
                     // Scores (unstriped vector) API
                     let sc = Scores::new(flat.clone());
@@ -497,9 +507,9 @@ impl Sub for Synthetic {
                 let t8 = thr.clamp(0.0, 255.0) as u8;
                 let prior = if case.prior_rows > 0 { Some((case.prior_rows, 255u8)) } else { None };
                 if case.wide {
-                    run_syn_wide::<u8>(&cells8, t8, prior, &mut info)
+                    run_syn_wide::<u8>(&cells8, t8, prior, case.short_by, &mut info)
                 } else {
-                    run_syn::<u8, U16>(&cells8, t8, false, prior, &mut info)
+                    run_syn::<u8, U16>(&cells8, t8, false, prior, case.short_by, &mut info)
                 }
             }
         };
@@ -507,6 +517,7 @@ impl Sub for Synthetic {
         info.class_if(!case.wide, "C=16");
         info.class_if(rows == 0, "empty");
         info.class_if(case.prior_rows > 0, "buffer-shrunk-from-a-taller-use");
+        info.class_if(case.short_by > 0 && rows > 0, "max_index<rows*C");
         info.class_if(rows == 1, "rows=1");
         info.class_if(rows >= 70, "rows>=70");
         info.class_if(n_max >= 2, "duplicated-max");
